@@ -17,7 +17,7 @@ The functions are transcriptions (Go → Lean, branch by branch, in source order
   contract/enterprise/         validate.go ValidateEnterpriseTx, checkAdmin, checkArgs, check*;
                                changecluster.go ValidateChangeCluster; config.go Conf.Validate;
                                execute.go ExecuteEnterpriseTx (argument handling); admin.go getAdmins
-  mempool/mempool.go           verifyTx, validateTx (governance branch) = `admit`
+  mempool/mempool.go           verifyTx, validateTx (governance branch) = `poolAdmit`
   chain/chainhandle.go         executeTx, governance.go executeGovernanceTx = `execute`
 
 What the model does *not* compute it takes as facts in `Env` (observed by the harness through the
@@ -822,7 +822,7 @@ def poolGov (u : List Site) (e : Env) : Outcome Unit :=
 
 /-- Pool admission: `verifyTx` (Validate + signature), then `put`'s `validateTx`.  Only governance
 transactions (type 1) reach governance code; the pool's checks for the other types are not modelled. -/
-def admit (u : List Site) (e : Env) : Outcome Unit := do
+def poolAdmit (u : List Site) (e : Env) : Outcome Unit := do
   typesValidate u e
   rejectIf (!e.tx.sigOk) .sig
   if e.tx.type == 1 then do
